@@ -28,3 +28,18 @@ pub mod ct {
     #[inline(never)] pub fn vp_ed_keygen(seed: &[u8; 32]) -> [u8; 32] { let k = SigningKey::from_bytes(seed); let v = k.verifying_key().to_bytes(); core::mem::forget(k); v }
     #[inline(never)] pub fn vp_ed_sign(seed: &[u8; 32], msg: &[u8]) -> [u8; 64] { let k = SigningKey::from_bytes(seed); let s = k.sign(msg).to_bytes(); core::mem::forget(k); s }
 }
+
+// ---- C13: verify_batch entry point for the group-level engine (messages all equal to `msg`, nm of them)
+#[cfg(feature = "batch")]
+pub mod batchhook {
+    use crate::{Signature, VerifyingKey};
+    use alloc::vec::Vec;
+    #[inline(never)] pub fn vp_verify_batch(msg: &[u8], sigs: &[[u8; 64]], keys: &[VerifyingKey], nm: usize) -> bool {
+        let ms: Vec<&[u8]> = (0..nm).map(|_| msg).collect();
+        let ss: Vec<Signature> = sigs.iter().map(Signature::from_bytes).collect();
+        crate::verify_batch(&ms, &ss, keys).is_ok()
+    }
+    #[inline(never)] pub fn vp_layout_verifying_key(out: &mut [usize; 3]) {
+        out[0] = core::mem::size_of::<VerifyingKey>(); out[1] = core::mem::offset_of!(VerifyingKey, compressed); out[2] = core::mem::offset_of!(VerifyingKey, point);
+    }
+}
